@@ -91,3 +91,102 @@ def minify_tree(model, source, options=None, version=(3, 12, 0), tree=None, extr
     if o[0] != 'return' or not captured or not isinstance(captured[0], Obj):
         raise AnalysisError('UNDECIDED: minify(%s) -> %s %s' % (what, o, unk[:3]))
     return 'ok', ast.fix_missing_locations(obj_to_ast(captured[0])), captured[0]
+
+
+def staged_trace(model, source, options=None, attributes=()):
+    """minify() evaluated for real with every function / transformer class it takes from the rest of the package wrapped: the wrapper records when the
+    stage starts and then runs the repository's own code. Reads and writes of the given annotation attributes on tree nodes are recorded with the
+    stage during which they happen. -> (stage order, events [(stage, kind, node class, attribute)])"""
+    from . import apirun
+    from .absint import ClassRef, PyCallable
+    from .absnodes import std_hooks
+    from .absprint import to_obj
+    hooks = std_hooks()
+    hooks['dir'] = lambda I, e, a, kw, env: dir(builtins) if a and not isinstance(a[0], Obj) else TOP
+    for k in ('get_parent', 'set_parent'):
+        hooks.pop(k, None)       # the repository's own accessors run, so that their reads and writes are seen
+    if (options or {}).get('constant_folding'):
+        from .props.c07 import fold_hooks
+        for k, v in fold_hooks().items():
+            hooks.setdefault(k, v)
+    hooks['ast.parse'] = lambda I, e, a, kw, env: to_obj(ast.parse(a[0])) if a and isinstance(a[0], (str, bytes)) and not I.__dict__.setdefault('_parsed', []) and not I._parsed.append(1) else \
+        (hooks_parse(I, e, a, kw, env))
+    from .absprint import printer_hooks
+    hooks_parse = printer_hooks()['ast.parse']
+    I = Interp(model, PKG, hooks, version=(3, 12, 0), max_depth=900)
+    I.MAX_PATHS = 8
+    stack = ['minify']
+    order = []
+    events = []
+    wanted = set(attributes)
+
+    containers = {}     # id(container stored in an annotation) -> (container, attribute name)
+
+    def tracer(kind, obj, attr, value=None):
+        if kind == 'mutate':
+            hit = containers.get(id(obj))
+            if hit is not None:
+                events.append((stack[-1], 'populate', '', hit[1]))
+            return
+        if not isinstance(obj, Obj) or obj.qual is not None:
+            return
+        if wanted:
+            if attr not in wanted:
+                return
+        else:
+            # every attribute hung on a tree node that is not a field of its class is an annotation
+            pyc = getattr(ast, obj.cls, None)
+            if pyc is None or attr in pyc._fields or attr in ('lineno', 'col_offset', 'end_lineno', 'end_col_offset', '_fields', '_attributes', '__class__', '__dict__', 'n', 's', 'kind'):
+                return
+        if kind == 'write' and isinstance(value, (list, set, dict)):
+            containers[id(value)] = (value, attr)
+            if len(value):
+                events.append((stack[-1], 'populate', obj.cls, attr))
+        events.append((stack[-1], kind, obj.cls, attr))
+    I.attr_tracer = tracer
+    intercept = {}
+
+    def enter(name):
+        if len(stack) == 1:
+            order.append(name)
+        stack.append(name if len(stack) == 1 else stack[-1])
+
+    for name, (kind, q) in apirun.imported_callables(model).items():
+        if kind == 'function':
+            def fn(I_, a, kw, _q=q, _n=name):
+                h = intercept.pop(_q)
+                enter(_n)
+                try:
+                    return I_.call_function(_q, a, kw)
+                finally:
+                    stack.pop()
+                    intercept[_q] = h
+            intercept[q] = fn
+        else:
+            def ctor(I_, a, kw, _q=q, _n=name):
+                h = intercept.pop(_q)
+                enter(_n)
+                try:
+                    o = I_.construct(ClassRef(_q.rsplit('.', 1)[1], _q), a, kw)
+                finally:
+                    stack.pop()
+                    intercept[_q] = h
+
+                def call(I2, a2, kw2):
+                    enter(_n)
+                    try:
+                        return I2.call_method(_q, '__call__', o, a2, kw2)
+                    finally:
+                        stack.pop()
+                if model.method(_q, '__call__') is None:
+                    return o
+                return PyCallable(call, _n)
+            intercept[q] = ctor
+    intercept[PKG + '.unparse'] = lambda I_, a, kw: 'PRINTED'
+    I.intercept = intercept
+    kw = all_off(model)
+    kw.update(options or {})
+    res = I.explore(lambda: I.call_function(PKG + '.minify', [source], kw))
+    if len(res) != 1 or res[0][0][0] != 'return':
+        raise AnalysisError('UNDECIDED: staged minify() -> %s %s' % ([r[0] for r in res][:2], res[0][2][:3]))
+    return order, events
